@@ -51,6 +51,8 @@ func plans(e *common.Env, i int, r *rand.Rand) (prog.Config, prog.Plan) {
 		p.Invalid = true
 	case k < 13:
 		p.ZeroCompressed = true
+	case k < 15:
+		p.AfterClose = true
 	}
 	return cfg, p
 }
@@ -146,6 +148,9 @@ func main() {
 					e.Line("impl.obs", "%s selfcheck 1", id)
 				}
 				e.Line("cases.txt", "%s %s Q 0", id, res.CaseLine())
+			}
+			if res.AfterCloseAccepted != "" {
+				e.Fail("operation-after-close-accepted", "Put after Writer.Close returns nil: "+res.AfterCloseAccepted, res.Describe())
 			}
 			seen := map[string]bool{}
 			for _, f := range rb.Fails {
